@@ -17,9 +17,15 @@ Qed.
 
 (* ---------- big-endian bytes ---------- *)
 
+Lemma be_bytes_S : forall k z, be_bytes (S k) z = be_bytes k (z / 256) ++ [z mod 256].
+Proof.
+  intros. cbn [be_bytes]. rewrite Z.shiftr_div_pow2 by lia.
+  change 255 with (Z.ones 8). rewrite Z.land_ones by lia. reflexivity.
+Qed.
+
 Lemma be_bytes_length : forall n z, length (be_bytes n z) = n.
 Proof.
-  induction n; intros; simpl; auto. rewrite app_length, IHn. simpl. lia.
+  induction n; intros; [reflexivity|]. rewrite be_bytes_S, app_length, IHn. simpl. lia.
 Qed.
 
 Lemma word_length : forall z, length (word z) = 32%nat.
@@ -35,7 +41,7 @@ Lemma be_val_be_bytes : forall n z, be_val (be_bytes n z) = z mod 256 ^ Z.of_nat
 Proof.
   induction n; intros.
   - simpl. rewrite Z.mod_1_r. reflexivity.
-  - cbn [be_bytes]. rewrite be_val_snoc, IHn.
+  - rewrite be_bytes_S. rewrite be_val_snoc, IHn.
     rewrite Nat2Z.inj_succ, Z.pow_succ_r by lia.
     assert (P : 0 < 256 ^ Z.of_nat n) by (apply Z.pow_pos_nonneg; lia).
     rewrite (Z.rem_mul_r z 256 (256 ^ Z.of_nat n)) by lia. lia.
@@ -43,7 +49,7 @@ Qed.
 
 Lemma be_bytes_range : forall n z, Forall (in_range 256) (be_bytes n z).
 Proof.
-  induction n; intros; simpl. constructor.
+  induction n; intros; [constructor|]. rewrite be_bytes_S.
   apply Forall_app. split. apply IHn. constructor; [|constructor].
   unfold in_range. apply Z.mod_pos_bound. lia.
 Qed.
@@ -65,7 +71,7 @@ Proof.
   (* be_bytes only looks at z mod 256^n *)
   assert (G : forall n z m, 0 < m -> be_bytes n (z mod (256 ^ Z.of_nat n * m)) = be_bytes n z).
   { induction n; intros z m Hm. reflexivity.
-    cbn [be_bytes]. rewrite Nat2Z.inj_succ, Z.pow_succ_r by lia.
+    rewrite !be_bytes_S. rewrite Nat2Z.inj_succ, Z.pow_succ_r by lia.
     assert (P : 0 < 256 ^ Z.of_nat n) by (apply Z.pow_pos_nonneg; lia).
     replace (256 * 256 ^ Z.of_nat n * m) with (256 * (256 ^ Z.of_nat n * m)) by ring.
     rewrite (Z.rem_mul_r z 256 (256 ^ Z.of_nat n * m)) by nia.
